@@ -22,8 +22,12 @@ type ProcPlan struct {
 	Threads int   `json:"threads"`
 	Buffer  int   `json:"buffer"`
 	Queue   int   `json:"queue"`
-	Ops     []int `json:"ops"` // >0: returns that value; <0: returns error number -v
+	Ops     []int `json:"ops"` // >0: returns that value; <0: returns error number -v; 0: returns (nil, nil)
 	Waiter  bool  `json:"waiter"`
+	// CollectFirst: the consumer takes exactly len(Ops) results and only then
+	// is the queue closed, so a result that is never delivered cannot be
+	// mistaken for the zero Result of the closed channel.
+	CollectFirst bool `json:"collect_first,omitempty"`
 }
 
 type procOp struct{ v int }
@@ -35,6 +39,9 @@ func (e procErr) Error() string { return fmt.Sprintf("operation error %d", e.n) 
 func (o procOp) Operation() (interface{}, error) {
 	if o.v < 0 {
 		return nil, procErr{-o.v}
+	}
+	if o.v == 0 {
+		return nil, nil
 	}
 	return o.v, nil
 }
@@ -57,12 +64,22 @@ func runProcessor(t *testing.T, c *Case, o RunOpts) *Result {
 				for _, v := range pl.Ops {
 					p.Process(procOp{v})
 				}
+				if pl.CollectFirst {
+					sim.Await("collected")
+				}
 				p.Close()
 			})
 			sim.Go("consumer", func() {
-				for {
+				for taken := 0; ; taken++ {
+					if pl.CollectFirst && taken == len(pl.Ops) {
+						sim.Signal("collected")
+					}
 					v, err := p.Result()
 					if v == nil && err == nil {
+						if pl.CollectFirst && taken < len(pl.Ops) {
+							got = append(got, 0) // a (nil, nil) result (the queue is still open)
+							continue
+						}
 						break // result channel closed
 					}
 					if err != nil {
@@ -135,10 +152,14 @@ func genProcessor(r *simrt.RNG) *Case {
 	if r.Intn(12) == 0 {
 		n = r.Range(10, 24)
 	}
+	pl.CollectFirst = r.Intn(3) == 0
 	for i := 0; i < n; i++ {
 		v := i + 1
 		if r.Intn(4) == 0 {
 			v = -v
+		}
+		if pl.CollectFirst && r.Intn(4) == 0 {
+			v = 0 // an operation whose value and error are both nil
 		}
 		pl.Ops = append(pl.Ops, v)
 	}
@@ -200,6 +221,10 @@ type MapPlan struct {
 	Len      int `json:"len"`
 	Threads  int `json:"threads"`
 	MaxChunk int `json:"max_chunk"`
+	// FailAt > 0: the chunk containing position FailAt-1 returns an error.
+	// Map must then still return (with whatever error it likes) without
+	// panic, race or deadlock of the caller.
+	FailAt int `json:"fail_at,omitempty"`
 }
 
 type span struct{ lo, hi int }
@@ -207,12 +232,18 @@ type span struct{ lo, hi int }
 type recMapper struct {
 	lo, hi int
 	slices *[]span
+	failAt int
 }
 
-func (m *recMapper) Operation() (interface{}, error) { return span{m.lo, m.hi}, nil }
+func (m *recMapper) Operation() (interface{}, error) {
+	if m.failAt > 0 && m.lo <= m.failAt-1 && m.failAt-1 < m.hi {
+		return nil, procErr{m.failAt}
+	}
+	return span{m.lo, m.hi}, nil
+}
 func (m *recMapper) Slice(i, j int) concurrent.Mapper {
 	*m.slices = append(*m.slices, span{m.lo + i, m.lo + j})
-	return &recMapper{lo: m.lo + i, hi: m.lo + j, slices: m.slices}
+	return &recMapper{lo: m.lo + i, hi: m.lo + j, slices: m.slices, failAt: m.failAt}
 }
 func (m *recMapper) Len() int { return m.hi - m.lo }
 
@@ -227,7 +258,7 @@ func runMap(t *testing.T, c *Case, o RunOpts) *Result {
 		var err error
 		returned := false
 		sim.Client("mapper", func() {
-			results, err = concurrent.Map(&recMapper{lo: 0, hi: pl.Len, slices: &slices}, pl.Threads, pl.MaxChunk)
+			results, err = concurrent.Map(&recMapper{lo: 0, hi: pl.Len, slices: &slices, failAt: pl.FailAt}, pl.Threads, pl.MaxChunk)
 			returned = true
 		})
 		return func() {
@@ -237,6 +268,10 @@ func runMap(t *testing.T, c *Case, o RunOpts) *Result {
 			if !returned {
 				sim.Fail("oracle", "map-return", "Map did not return")
 				return
+			}
+			if pl.FailAt > 0 && pl.FailAt <= pl.Len {
+				sim.Probe("map_with_failing_chunk")
+				return // only: Map returned, nothing panicked, raced or deadlocked
 			}
 			if err != nil {
 				sim.Fail("oracle", "map-error", fmt.Sprintf("Map failed although no operation fails: %v", err))
@@ -287,6 +322,9 @@ func genMap(r *simrt.RNG) *Case {
 	}
 	if r.Intn(5) == 0 {
 		pl.MaxChunk = r.Range(1, 20)
+	}
+	if pl.Len > 0 && r.Intn(5) == 0 {
+		pl.FailAt = 1 + r.Intn(pl.Len)
 	}
 	b, _ := json.Marshal(pl)
 	return &Case{Prop: "C19", Kind: "map", Plan: b, Sched: PickStrategy(r, 120, []string{procWorkerSite, "map.go:"}, nil)}
